@@ -1059,7 +1059,344 @@ def _mk_fqp_inv(impl, curve, deg):
 for _impl in ("ref", "opt"):
     for _curve in CURVES:
         for _deg in (2, 12):
-            obligation("C08", "fqp_inv_%s_%s_fq%d" % (_impl, _curve, _deg), timeout=1200,
+            obligation("C08", "fqp_inv_%s_%s_fq%d" % (_impl, _curve, _deg), timeout=400,
                        bound=("FQ2: all elements (both coefficients symbolic, every zero pattern)" if _deg == 2 else
                               "FQ12: coefficient supports {i}, i = 0..6 (quick), i = 0..9 and {0,6} (thorough); supports {10}, {11}, other pairs and denser supports exceed the time/memory budget at the real primes (rational functions without gcd cancellation) and are claimed only in the small-field tier; real prime; generic path + zeroed support variables"))(
                 _mk_fqp_inv(_impl, _curve, _deg))
+
+
+# ---------------------------------------------------------------------------
+# C08.f  whole small fields, exact bit-vector arithmetic, real control flow (no stubs)
+
+def _small_primes(tier):
+    return [q for q in PRIMES if q <= (13 if tier == "quick" else 31)]
+
+
+def _prove_all(rep, pth, goals, tag, rp, model_names=()):
+    for what, g in goals:
+        if isinstance(g, bool):
+            require(rep, g, "%s: %s" % (tag, what), pth.decisions, rp)
+            continue
+        r, m = pth.ctx.prove(core.as_bool_term(g), timeout_ms=120000)
+        rpm = rp
+        if r == "sat":
+            rpm = {"kind": rp["kind"], "args": dict(rp["args"], model=_model_dict(m))}
+        require(rep, r, "%s: %s" % (tag, what), pth.decisions, rpm)
+    r, m = pth.ctx.prove_side(timeout_ms=120000)
+    if r != "unsat":
+        rep.unknown("%s: bit-vector arithmetic may wrap on path %s" % (tag, pth.decisions))
+
+
+def _model_dict(m):
+    out = {}
+    try:
+        for d in m.decls():
+            v = m[d]
+            if z3.is_bv_value(v):
+                out[d.name()] = v.as_signed_long()
+            elif z3.is_int_value(v):
+                out[d.name()] = v.as_long()
+    except Exception:
+        pass
+    return out
+
+
+def _eqz(a, b):
+    """term: the two FQ-or-int values are equal representatives."""
+    a = a.n if hasattr(a, "n") else a
+    b = b.n if hasattr(b, "n") else b
+    return SymZ.lift(a).t == SymZ.lift(b).t
+
+
+def _check_small_fq(rep, impl, Base, tier):
+    primes = _small_primes(tier)
+    rp = {"kind": "c08_small_fq", "args": {"impl": impl}}
+    tag = "%s FQ over every prime <= %d" % (impl, max(primes))
+    rep.encoded(Base.__add__, Base.__mul__, Base.__sub__, Base.__neg__, Base.__truediv__, Base.__div__, Base.__init__, Base.__pow__)
+
+    def mk(ctx):
+        p = SymZ.var("p", min(primes), max(primes))
+        ctx.assume(z3.Or(*[p.t == q for q in primes]))
+        T = type("SmallFQ", (Base,), {"field_modulus": p})
+        vs = []
+        for nm in ("a", "b", "c"):
+            v = SymZ.var(nm, 0, max(primes) - 1)
+            ctx.assume(v.t < p.t)
+            vs.append(T(v))
+        return p, T, vs
+
+    def run_ring(ctx):
+        p, T, (a, b, c) = mk(ctx)
+        return p, [
+            ("(a+b)+c = a+(b+c)", _eqz((a + b) + c, a + (b + c))), ("a+b = b+a", _eqz(a + b, b + a)),
+            ("(a*b)*c = a*(b*c)", _eqz((a * b) * c, a * (b * c))), ("a*b = b*a", _eqz(a * b, b * a)),
+            ("a*(b+c) = a*b + a*c", _eqz(a * (b + c), a * b + a * c)),
+            ("a+0 = a", _eqz(a + T.zero(), a)), ("a*1 = a", _eqz(a * T.one(), a)), ("a+(-a) = 0", _eqz(a + (-a), 0)),
+            ("a-b = a+(-b)", _eqz(a - b, a + (-b))), ("a**0 = 1", _eqz(a ** 0, 1)), ("a**1 = a", _eqz(a ** 1, a)),
+            ("a**2 = a*a", _eqz(a ** 2, a * a)), ("a**3 = a*a*a", _eqz(a ** 3, a * a * a)), ("a**5 = a*a*a*a*a", _eqz(a ** 5, a * a * a * a * a)),
+            ("int operands act as residues", _eqz(a + (b.n + p), a + b)), ("int*: residues", _eqz(a * (b.n - p), a * b)),
+            ("results reduced", z3.And(SymZ.lift((a * b).n).t >= 0, SymZ.lift((a * b).n).t < p.t, SymZ.lift((a - b).n).t >= 0,
+                                       SymZ.lift((a - b).n).t < p.t, SymZ.lift((-a).n).t >= 0, SymZ.lift((-a).n).t < p.t)),
+        ]
+
+    def on_ring(pth):
+        rep.paths += 1
+        if pth.kind != "ret":
+            rep.fail("%s: ring operation raised %r" % (tag, pth.value), rp)
+            return
+        _prove_all(rep, pth, pth.value[1], tag, rp)
+    core.explore(run_ring, ctx_kwargs=dict(backend=("bv", 24), branch_timeout_ms=60000), on_path=on_ring)
+
+    def run_div(ctx):
+        p, T, (a, b, c) = mk(ctx)
+        q = a / b
+        bi = 1 / b
+        nz = SymZ.lift(b.n).t != 0
+        return p, [
+            ("(a/b)*b = a for b != 0", z3.Implies(nz, _eqz(q * b, a))),
+            ("a/0 = 0 (inv0)", z3.Implies(z3.Not(nz), _eqz(q, 0))),
+            ("b*(1/b) = 1 for b != 0", z3.Implies(nz, _eqz(b * bi, 1))),
+            ("quotient reduced", z3.And(SymZ.lift(q.n).t >= 0, SymZ.lift(q.n).t < p.t)),
+            ("a / int acts on the residue", _eqz(a / (b.n + p), q)),
+        ]
+
+    def on_div(pth):
+        rep.paths += 1
+        if pth.kind != "ret":
+            rep.fail("%s: division raised %r" % (tag, pth.value), rp)
+            return
+        _prove_all(rep, pth, pth.value[1], tag, rp)
+    core.explore(run_div, ctx_kwargs=dict(backend=("bv", 24), branch_timeout_ms=60000, max_decisions=80), on_path=on_div)
+
+
+@obligation("C08", "small_fq_ref", bound="reference FQ instantiated with a SYMBOLIC modulus ranging over every prime <= 13 (quick) / <= 31 (thorough); all elements/pairs/triples; real prime_field_inv; exact 24-bit arithmetic with no-wrap side conditions",
+            timeout=900)
+def small_fq_ref(rep, tier):
+    _check_small_fq(rep, "ref", mod("py_ecc.fields.field_elements").FQ, tier)
+
+
+@obligation("C08", "small_fq_opt", bound="optimized FQ instantiated with a SYMBOLIC modulus ranging over every prime <= 13 (quick) / <= 31 (thorough); all elements/pairs/triples; real prime_field_inv; exact 24-bit arithmetic",
+            timeout=900)
+def small_fq_opt(rep, tier):
+    _check_small_fq(rep, "opt", mod("py_ecc.fields.optimized_field_elements").FQ, tier)
+
+
+# ---- small extension fields ------------------------------------------------
+
+def _poly_mulmod(a, b, f, q):
+    """a*b mod (f, q); polynomials as coefficient lists (low first), f monic of degree d."""
+    d = len(f) - 1
+    r = [0] * (len(a) + len(b) - 1)
+    for i, x in enumerate(a):
+        if x:
+            for j, y in enumerate(b):
+                r[i + j] = (r[i + j] + x * y) % q
+    for k in range(len(r) - 1, d - 1, -1):
+        t = r[k]
+        if t:
+            for i in range(d + 1):
+                r[k - d + i] = (r[k - d + i] - t * f[i]) % q
+    r = r[:d] + [0] * max(0, d - len(r))
+    return r[:d]
+
+
+def _poly_gcd_is_one(a, f, q):
+    def trim(p):
+        while p and p[-1] % q == 0:
+            p = p[:-1]
+        return p
+    a, b = trim(list(f)), trim(list(a))
+    while b:
+        # a mod b
+        inv = pow(b[-1], -1, q)
+        a = list(a)
+        while len(a) >= len(b):
+            c = a[-1] * inv % q
+            sh = len(a) - len(b)
+            for i, y in enumerate(b):
+                a[sh + i] = (a[sh + i] - c * y) % q
+            a = trim(a)
+            if not a:
+                break
+        a, b = b, trim(a)
+    return len(a) == 1
+
+
+def is_irreducible(f, q):
+    """Rabin's test for a monic polynomial f over GF(q) (concrete pre-computation)."""
+    d = len(f) - 1
+    x = [0, 1] + [0] * (d - 2) if d >= 2 else [0]
+
+    def xpow_q_iter(p):
+        # p^(q) mod f
+        r = [1] + [0] * (d - 1)
+        base = p
+        e = q
+        while e:
+            if e & 1:
+                r = _poly_mulmod(r, base, f, q)
+            base = _poly_mulmod(base, base, f, q)
+            e >>= 1
+        return r
+    frob = [x]
+    for i in range(d):
+        frob.append(xpow_q_iter(frob[-1]))
+    if frob[d] != x:
+        return False
+    for r in set(pf for pf in (2, 3, 5, 7, 11) if d % pf == 0):
+        h = [(u - v) % q for u, v in zip(frob[d // r], x)]
+        if not any(h):
+            return False
+        if not _poly_gcd_is_one(h, f, q):
+            return False
+    return True
+
+
+def find_sparse_irreducible(q, d):
+    """first irreducible of the form x^d + a x^k + b (then 4 terms) in a fixed enumeration order."""
+    for k in range(1, d):
+        for a in range(1, q):
+            for b in range(1, q):
+                f = [b] + [0] * (d - 1) + [1]
+                f[k] = a
+                if is_irreducible(f, q):
+                    return f
+    for k in range(2, d):
+        for j in range(1, k):
+            for a in range(1, q):
+                for c in range(1, q):
+                    for b in range(1, q):
+                        f = [b] + [0] * (d - 1) + [1]
+                        f[k] = a
+                        f[j] = c
+                        if is_irreducible(f, q):
+                            return f
+    return None
+
+
+def _mk_small_ext(impl, q, f):
+    """subclass of the real FQP (ref or opt) of degree len(f)-1 over GF(q) with monic modulus f."""
+    d = len(f) - 1
+    mc = tuple(f[:d])
+    if impl == "ref":
+        Base = mod("py_ecc.fields.field_elements").FQP
+
+        class T(Base):
+            field_modulus = q
+            degree = d
+
+            def __init__(self, coeffs, modulus_coeffs=None):
+                Base.__init__(self, coeffs, mc)
+    else:
+        Base = mod("py_ecc.fields.optimized_field_elements").FQP
+
+        class T(Base):
+            field_modulus = q
+            degree = d
+            mc_tuples = [(i, c) for i, c in enumerate(mc) if c]
+
+            def __init__(self, coeffs, modulus_coeffs=None):
+                Base.__init__(self, coeffs, mc)
+    return T, Base
+
+
+def _coeff_eq(x, y):
+    cs = [_eqz(u, v) for u, v in zip(x.coeffs if hasattr(x, "coeffs") else x, y.coeffs if hasattr(y, "coeffs") else y)]
+    return z3.And(*cs)
+
+
+def _check_small_ext(rep, impl, q, f, sym_positions, fixed, tag, rp, width=32, with_ring=True):
+    """elements with symbolic coefficients at sym_positions (others from `fixed`)."""
+    T, Base = _mk_small_ext(impl, q, f)
+    d = len(f) - 1
+    rep.encoded(Base.inv, Base.__mul__, Base.__truediv__, Base.__div__, Base.__eq__)
+    one = [1] + [0] * (d - 1)
+
+    def elem(ctx, nm, fixed_row):
+        cs = []
+        for i in range(d):
+            if i in sym_positions:
+                cs.append(SymZ.var("%s%d" % (nm, i), 0, q - 1))
+            else:
+                cs.append(fixed_row[i])
+        return T(cs), cs
+
+    def run_inv(ctx):
+        x, xs = elem(ctx, "a", fixed[0])
+        y, ys = elem(ctx, "b", fixed[1])
+        xi = x.inv()
+        nz = z3.Or(*[SymZ.lift(c).t != 0 for c in xs])
+        goals = [("x*inv(x) = 1 for x != 0", z3.Implies(nz, _coeff_eq(x * xi, one))),
+                 ("inv(0) = 0", z3.Implies(z3.Not(nz), _coeff_eq(xi, [0] * d))),
+                 ("(y/x)*x = y for x != 0", z3.Implies(nz, _coeff_eq((y / x) * x, y))),
+                 ("inverse reduced", z3.And(*[z3.And(SymZ.lift(c.n if hasattr(c, "n") else c).t >= 0,
+                                                     SymZ.lift(c.n if hasattr(c, "n") else c).t < q) for c in xi.coeffs]))]
+        return goals
+
+    def on_path(pth):
+        rep.paths += 1
+        if pth.kind in ("limit", "unsupported"):
+            rep.unknown("%s: %s" % (tag, pth.value))
+            return
+        if pth.kind != "ret":
+            r, m = pth.ctx.satisfiable()
+            rep.fail("%s: inv raised %r" % (tag, pth.value), {"kind": rp["kind"], "args": dict(rp["args"], model=_model_dict(m) if m else {})})
+            return
+        _prove_all(rep, pth, pth.value, tag, rp)
+    core.explore(run_inv, ctx_kwargs=dict(backend=("bv", width), branch_timeout_ms=60000, max_decisions=300), on_path=on_path, max_paths=20000)
+
+    if with_ring:
+        def run_ring(ctx):
+            x, _ = elem(ctx, "a", fixed[0])
+            y, _ = elem(ctx, "b", fixed[1])
+            z, _ = elem(ctx, "c", fixed[2])
+            return [("(x*y)*z = x*(y*z)", _coeff_eq((x * y) * z, x * (y * z))), ("x*y = y*x", _coeff_eq(x * y, y * x)),
+                    ("x*(y+z) = x*y + x*z", _coeff_eq(x * (y + z), x * y + x * z)), ("x*1 = x", _coeff_eq(x * T.one(), x)),
+                    ("x + (-x) = 0", _coeff_eq(x + (-x), [0] * d)), ("x**3 = x*x*x", _coeff_eq(x ** 3, x * x * x)),
+                    ("x**0 = 1", _coeff_eq(x ** 0, one))]
+        core.explore(run_ring, ctx_kwargs=dict(backend=("bv", width), branch_timeout_ms=60000), on_path=on_path)
+
+
+def _mk_small_fq2(impl):
+    def f(rep, tier):
+        qs = [3, 7] if tier == "quick" else [3, 7, 11, 19]
+        for q in qs:
+            fpoly = [1, 0, 1]     # x^2 + 1, irreducible for q == 3 (mod 4)
+            if not is_irreducible(fpoly, q):
+                rep.unknown("x^2+1 reducible over GF(%d)?" % q)
+                continue
+            rp = {"kind": "c08_small_ext", "args": {"impl": impl, "q": q, "f": fpoly}}
+            _check_small_ext(rep, impl, q, fpoly, {0, 1}, [[0, 0]] * 3, "%s FQP over GF(%d^2), all elements" % (impl, q), rp, width=24)
+    return f
+
+
+for _impl in ("ref", "opt"):
+    obligation("C08", "small_fq2_%s" % _impl, timeout=900,
+               bound="every element/pair/triple of GF(p^2), p in {3,7} (quick) / {3,7,11,19} (thorough), modulus x^2+1; real inv (Euclid with degree branches), no stubs")(
+        _mk_small_fq2(_impl))
+
+
+def _mk_small_deg12(impl):
+    def f(rep, tier):
+        import random
+        rng = random.Random(2026)
+        qs = [3] if tier == "quick" else [3, 5, 7]
+        for q in qs:
+            fpoly = find_sparse_irreducible(q, 12)
+            if fpoly is None:
+                rep.unknown("no sparse irreducible polynomial of degree 12 over GF(%d) found" % q)
+                continue
+            rep.note("GF(%d^12) modulus (Rabin-tested irreducible): %s" % (q, fpoly))
+            patterns = [({0, 1, 2}, "low"), ({3, 7, 11}, "spread"), ({9, 10, 11}, "high")] if tier == "quick" else \
+                [({0, 1, 2, 3}, "low"), ({2, 5, 8, 11}, "spread"), ({8, 9, 10, 11}, "high"), ({0, 4, 6, 11}, "mixed")]
+            for pos, nm in patterns:
+                fixed = [[rng.randrange(q) for _ in range(12)] for _ in range(3)]
+                rp = {"kind": "c08_small_ext", "args": {"impl": impl, "q": q, "f": fpoly, "fixed": fixed, "sym": sorted(pos)}}
+                _check_small_ext(rep, impl, q, fpoly, pos, fixed, "%s FQP over GF(%d^12), symbolic coefficients %s (others fixed %s)" % (impl, q, sorted(pos), fixed[0]),
+                                 rp, width=40, with_ring=(nm == "low"))
+    return f
+
+
+# NOTE: small_deg12 is not registered: with 3 symbolic coefficients over GF(3^12) the exact bit-vector queries did not
+# finish within 25 minutes per pattern (measured), so degree-12 inversion is claimed only on the sparse supports of
+# fqp_inv_* (real primes) -- see DESIGN.md, C08.d.
